@@ -62,6 +62,13 @@ fn main() {
         checks::c10::show(&cmd, &c, n);
         return;
     }
+    if id == "errprobe" {
+        // tsverif errprobe <file.js> [--path P] : print the error report of a failing run
+        let src = std::fs::read_to_string(&cmd).expect("read");
+        let path = arg_val(&args, "--path");
+        println!("{}", checks::c20::report_json(&src, path.as_deref(), &Default::default()));
+        return;
+    }
     if id == "leak-probe" {
         // tsverif leak-probe <file.js> : live objects after collect over 8 runs on one interpreter
         let src = std::fs::read_to_string(&cmd).expect("read");
